@@ -428,6 +428,32 @@ def _rewrite_recorded(ctx: Ctx, v: SiteVisitor):
         ctx.check(owner_rel == UTILS and owner_cls.name == 'SiteRewriter', rel, v.fn, q,
                   '`_replaced` is turned into an edit by SiteRewriter._visit_block, which this class runs under',
                   f'the class runs under {owner_cls.name}._visit_block, which does not read `_replaced`')
+        L = lang(ctx.repo)
+        expr_methods = set(L.dispatch_table('_expr_dispatch').values()) | {'_visit_expr'}
+        if v.fn.name in expr_methods:
+            # the flag is raised from an *expression* visitor, i.e. while some statement's expression is being
+            # visited.  `_visit_block` clears the flag before every statement, nested ones included, so a flag raised in a
+            # compound statement's own expression (an `if` / `while` condition, a `for` iterable, a `with` header) is gone
+            # by the time the compound statement returns: the program changes and no edit says so.  Such a rewriter has to
+            # withhold the preamble (pass no context) from those expressions.
+            own = ctx.repo.methods(rel, v.cls, inherited=False)
+            for node_cls in L.concrete('Stmt'):
+                fields = [f for f in L.slots(node_cls)]
+                vm = L.visit_method(node_cls)
+                c = L.classes.get(node_cls)
+                has_block = c is not None and any(isinstance(s, ast.AnnAssign) and 'StmtBlock' in ast.unparse(s.annotation) for s in c.body)
+                if not has_block or vm is None:
+                    continue
+                m = own.get(vm)
+                masked = False
+                got = 'inherited (the sub-expression receives the live preamble)'
+                if m is not None:
+                    sup = [k for k in calls_in(m[2]) if _is_super_visit(k) and k.func.attr == vm]  # type: ignore
+                    masked = len(sup) == 1 and len(sup[0].args) == 2 and isinstance(sup[0].args[1], ast.Constant) and sup[0].args[1].value is None
+                    got = f'calls {[norm(k) for k in sup]}'
+                ctx.check(masked, rel, m[2] if m is not None else v.fn, f'{v.cls}.{vm}',
+                          f'{node_cls}: its own expression is visited with no preamble to hoist into (an edit raised there would be lost when the nested block is visited)',
+                          f'{got}: a rewrite in the statement\'s own expression inserts statements ahead of it with no edit recorded, so every later cursor in the block resolves one statement off')
     if not v.ev['REC'] and v.fn is not blockfn:
         # the class accounts for its rewrites per statement in its own `_visit_block`
         recs = [k for k in calls_in(blockfn) if call_name(k) in ('self._record', 'self._record_at')]
@@ -1460,6 +1486,9 @@ T = 'fpy2/transform/'
 FU, SL, WU, RI, FI = T + 'for_unroll.py', T + 'split_loop.py', T + 'while_unroll.py', T + 'round_insert.py', T + 'func_inline.py'
 
 MUTANTS = [
+    Mutant('for-iterable-hoist-loses-its-edit', RI, "    def _visit_for(self, stmt: ForStmt, ctx: Any):\n        return super()._visit_for(stmt, None)[0], ctx", "    def _visit_for(self, stmt: ForStmt, ctx: Any):\n        return super()._visit_for(stmt, ctx)[0], ctx", 'C19.P2',
+           'seeded change C19b: a block inserted ahead of the loop with no edit recorded'),
+    Mutant('with-header-hoist-loses-its-edit', RI, "    def _visit_context(self, stmt: ContextStmt, ctx: Any):\n        return super()._visit_context(stmt, None)[0], ctx", "    def _visit_context(self, stmt: ContextStmt, ctx: Any):\n        return super()._visit_context(stmt, ctx)[0], ctx", 'C19.P2'),
     # P1
     Mutant('refusal-falls-into-index', FU, "                self.declined.append(reason)\n            return super()._visit_for(stmt, ctx)\n\n        idx = self.site_idx",
            "                self.declined.append(reason)\n\n        idx = self.site_idx", 'C19.P1', 'a refused loop also takes an index'),
